@@ -13,7 +13,12 @@ use serde::{Deserialize, Serialize};
 use vh_engine::*;
 use vh_p_iroh::e5_router::*;
 
-const NAMES: [&str; 5] = ["c40/a", "c40/b", "c40/c", "c40/d", "c40/a/x"];
+/// protocol names are opaque byte strings: index 5 is not valid UTF-8, index 6 is what a lossy UTF-8 rendering of
+/// index 5 looks like (seeded change C40-seed72 looked handlers up by the lossy rendering)
+const NAMES: [&[u8]; 7] = [b"c40/a", b"c40/b", b"c40/c", b"c40/d", b"c40/a/x", b"c40/\xff", "c40/\u{FFFD}".as_bytes()];
+fn show(i: usize) -> String {
+    String::from_utf8_lossy(NAMES[i]).into_owned() + if i == 5 { "(raw 0xff)" } else { "" }
+}
 
 #[derive(Serialize, Deserialize, Clone, Copy, Debug, PartialEq, Eq)]
 enum V {
@@ -139,7 +144,7 @@ async fn run_case_async(ctx: &Ctx, case: &Case) -> Result<(String, String), Stri
     let flog: Arc<Mutex<Vec<(bool, V)>>> = Default::default();
     let mut b = Router::builder(server.clone());
     for &r in &case.registered {
-        b = b.accept(NAMES[r].as_bytes(), Rec { me: r, log: log.clone() });
+        b = b.accept(NAMES[r], Rec { me: r, log: log.clone() });
     }
     if let Some((u, v)) = case.filter {
         let flog = flog.clone();
@@ -158,7 +163,7 @@ async fn run_case_async(ctx: &Ctx, case: &Case) -> Result<(String, String), Stri
     let router = b.spawn();
     ph("bound+spawned");
     let addr = dial_addr(&server);
-    let offered: Vec<Vec<u8>> = case.offered.iter().map(|&o| NAMES[o].as_bytes().to_vec()).collect();
+    let offered: Vec<Vec<u8>> = case.offered.iter().map(|&o| NAMES[o].to_vec()).collect();
 
     // ---- the dial ----
     let d2 = dialer.clone();
@@ -223,8 +228,8 @@ async fn run_case_async(ctx: &Ctx, case: &Case) -> Result<(String, String), Stri
     let accepts: Vec<&Entry> = log.iter().filter(|e| e.stage == "accept").collect();
     let detail = format!(
         "registered {:?} offered {:?} filter {:?}: dial {} negotiated {:?}; handler log {:?}; filter log {:?}",
-        case.registered.iter().map(|&i| NAMES[i]).collect::<Vec<_>>(),
-        case.offered.iter().map(|&i| NAMES[i]).collect::<Vec<_>>(),
+        case.registered.iter().map(|&i| show(i)).collect::<Vec<_>>(),
+        case.offered.iter().map(|&i| show(i)).collect::<Vec<_>>(),
         case.filter,
         match &dial_res {
             Some(Ok(_)) => "ok".to_string(),
@@ -252,7 +257,7 @@ async fn run_case_async(ctx: &Ctx, case: &Case) -> Result<(String, String), Stri
         // nothing was negotiated, nothing reached: the statement makes no claim (recorded, never counted as reach)
         return Ok((exp.class, "dial failed, no handler reached".into()));
     };
-    let Some(neg_idx) = NAMES.iter().position(|n| n.as_bytes() == &neg[..]) else {
+    let Some(neg_idx) = NAMES.iter().position(|n| *n == &neg[..]) else {
         return Err(format!("negotiated protocol is none of the offered ones: {detail}"));
     };
     if !case.offered.contains(&neg_idx) {
@@ -266,7 +271,7 @@ async fn run_case_async(ctx: &Ctx, case: &Case) -> Result<(String, String), Stri
         return Ok((exp.class, "negotiated unregistered protocol, no handler".into()));
     }
     if reached != BTreeSet::from([neg_idx]) {
-        return Err(format!("handlers reached {reached:?} but negotiated protocol is {:?}: {detail}", NAMES[neg_idx]));
+        return Err(format!("handlers reached {reached:?} but negotiated protocol is {:?}: {detail}", show(neg_idx)));
     }
     if accepts.len() != 1 || log.iter().filter(|e| e.stage == "on_accepting").count() != 1 {
         return Err(format!("the connection was not handed to its handler exactly once: {detail}"));
@@ -315,6 +320,12 @@ fn gen_cases(ctx: &Ctx) -> Vec<Case> {
             }
         }
     }
+    // binary (non-UTF-8) protocol names and their lossy look-alike, both tiers
+    for (r, o) in [(vec![5usize], vec![5usize]), (vec![5, 6], vec![5]), (vec![5, 6], vec![6]), (vec![6], vec![5]), (vec![0, 5], vec![5, 0])] {
+        for f in [None, Some((V::Retry, V::Accept))] {
+            out.push(Case { registered: r.clone(), offered: o.clone(), filter: f });
+        }
+    }
     if !ctx.thorough() {
         // the ignore verdicts: a few only in the quick tier (each costs a retransmission time-out)
         for f in [Some((V::Ignore, V::Accept)), Some((V::Retry, V::Ignore))] {
@@ -332,7 +343,7 @@ fn main() {
     ctx.set_rule("complete product registered-protocol sets x offered protocol lists x filter verdict functions (verdict as a function of 'address validated'), one fresh Router endpoint + dialer endpoint on loopback per case; distinct = (filter class, registration class) x observed reach");
     ctx.assume("the negotiated protocol is taken from the dialer's side of the established connection (independent of the router's own view)");
     ctx.assume("absence of a handler invocation is judged after Router::shutdown() returned (no connection task left)");
-    ctx.bound("names", NAMES);
+    ctx.bound("names", (0..NAMES.len()).map(show).collect::<Vec<_>>());
     ctx.min_outcomes(10);
     if let Some(c) = ctx.replay_case::<Case>() {
         run_case(&ctx, &c);
